@@ -87,7 +87,9 @@ Definition c01_ok (x y a : N) (out : res (N * N * N)) : bool :=
   | Err _ => true
   end.
 Definition chk_C01_compute_swap x y a c out : verdict :=
-  V (agree_compute_swap x y a c out) (c01_ok x y a out) (kf_c01 x y a c) (is_ok out).
+  (* the recorded class covers inputs on which the UNCHANGED code pays too much; inputs of the same arithmetic shape
+     that the unchanged code refuses (the model's compute_swap aborts) are not in it *)
+  V (agree_compute_swap x y a c out) (c01_ok x y a out) (kf_c01 x y a c && is_ok (compute_swap x y a c)) (is_ok out).
 
 (* ------------------------------------------------------------------ *)
 (* C08: Uint256 / Decimal256 operators                                 *)
